@@ -73,7 +73,7 @@ def replay_member(shape, moore, plus_one, op, values):
     """Real operator on one member vs explicit game solving / graph search. No z3."""
     from vlib import bdd2smt, family, xplay
     aut, params = family.build(shape, moore, plus_one)
-    c01.concrete_member(aut, {p: bool(values[p]) for p in params})
+    c01.concrete_member(aut, {p: values[p] for p in params})
     ex = family.Explicit(aut, bdd2smt.Exporter(aut.bdd))
     E, S, goals, holds, truth = c01.concrete_tables(aut, ex)
     P, Q = goals[0], holds[0]
@@ -185,7 +185,7 @@ def family_op(shape, moore, plus_one, ops):
                 out.append(core.res(name, 'holds', queries={res_: 1}, solver_s=dt, sample=sample,
                                     nontrivial=nontrivial, functions=FUNCS))
             elif res_ == 'sat':
-                vals = family.model_params(sol.model(), params, exp.bits)
+                vals = family.model_params(sol.model(), params, exp.bits, aut.vars)
                 diffs = replay_member(shape, moore, plus_one, op, vals)
                 if diffs:
                     out.append(core.res(
